@@ -1,10 +1,20 @@
 """C09 - trust store closure and signer authorisation.
 
-Decides: who may write the four trust dictionaries and who may call the root admission; the established facts at every
-admission store; the conjuncts of Certificate.verify (shared with C03) incl. what the permission containment covers; the
-authorisation facts a SUCCESS verdict needs (message PSID within the ticket's application permissions, generation time
-within its validity period); the guards and the chain-length narrowing of the issuing API.
-Does not decide histories of forged chains as values, nor hash-collision arguments.
+Decides: who may write the four trust dictionaries (writers: only CertificateLibrary.add_*) and who may call the root
+admission (root-callers: only the library's constructor); the established facts at every admission store (admission:
+the certificate stored under its own HashedId8 is the one that passed verify(backend), for every dictionary but the
+roots with an issuer found in the library; the issuer lookup answers only from the root / AA dictionaries); the conjuncts of Certificate.verify
+(verify-conjuncts, shared with C03: signature under the issuer's - or, marked self-signed, its own - explicit key,
+issuer correspondence, permission containment) incl. what that containment covers: needed permissions = issue AND
+application permissions, allowed = the issuer's explicit issuing PSIDs, "may issue all" answered only for the choice
+`all`, the check returning only "issuer may issue all" or all(needed in allowed), and - path by path - no truthy
+answer for a subject claiming to issue `all` unless its issuer may issue all (the needed list holds explicit PSIDs
+only, so that claim is never compared otherwise); the authorisation facts a SUCCESS verdict needs (msg-psid: message
+PSID among the ticket's application permissions; msg-validity: generation time within its validity period); the issuing
+API (issuing: signing only for a self-signed subject or under the containment and chain-length-budget guards, the
+signed certificate narrowed with its issuer set, budget = no issuing permission with minChainLength < 1, one decrement
+of minChainLength applied on every path over the new certificate's permissions, exhausted permissions removed).
+Does not decide histories of forged chains as values, hash-collision arguments, revocation, cryptographic strength.
 """
 from __future__ import annotations
 
